@@ -7,7 +7,8 @@ CondExprs == { KwL("null"), KwL("true"), KwL("false"), N(0), N(1), ND(FALSE, <<5
                <<"Arr", <<>>>>, <<"Arr", <<N(0)>>>>,
                Id("nan"), Id("pinf"), Id("ninf"), Id("negzero"), Id("zerof"), Id("int0"), Id("int5"), Id("s0"), Id("sa"),
                Id("m"), Id("mt"), Id("sl"), Id("np"), Id("nl"), Id("rec"), Id("undefined"), Id("bt"), Id("bf"), Id("t0"), Id("t1"), Id("st"), Id("ss0"),
-               SelE(Id("tm"), "z"), SelE(Id("tm"), "o"), SelE(Id("m"), "missing") }
+               SelE(Id("tm"), "z"), SelE(Id("tm"), "o"), SelE(Id("m"), "missing"),
+               <<"Pre", "+", S(<<48>>)>>, <<"Pre", "-", S(<<97,98,99>>)>>, <<"Pre", "+", Id("s0")>>, <<"Pre", "-", Id("sa")>>, <<"Pre", "+", S(<<55>>)>> }      \* + / - applied to strings: a number or NaN
 BranchExprs == { N(1), N(2), S(<<98>>), KwL("null"), KwL("false"), Asg("$x", N(7)), Call1("rec", N(1)), Call1("rec", N(2)), Id("m") }
 BranchExprsB == { N(1), N(2), S(<<98>>), KwL("null"), KwL("false"), P(Asg("$x", N(7))), Call1("rec", N(1)), Id("m"), N(0) }
 SmallConds == { KwL("null"), N(0), N(1), S(<<>>), S(<<97>>), Id("nan"), Id("m"), Id("np") }
@@ -18,6 +19,7 @@ GroupsC06 == { <<"pre", c>> : c \in CondExprs } \cup { <<"cond", c>> : c \in Con
 GroupProgramsC06(g) ==
   LET c == g[2] IN
   CASE g[1] = "pre" -> { <<"Pre", op, c>> : op \in {"!!", "!"} }
+                       \cup { Call1("rec", <<"Pre", "!!", c>>), <<"Arr", << <<"Pre", "!!", c>>, <<"Pre", "!", c>> >>>>, <<"Call", Id("recs"), <<N(1), <<"Pre", "!!", c>>>>, FALSE>> }      \* as list elements and arguments
     [] g[1] = "cond" -> { <<"Cond", c, a, b>> : a \in BranchExprs, b \in BranchExprs }
     [] g[1] = "bin" -> { <<"Bin", op, c, a>> : op \in {"&&", "||", "??"}, a \in BranchExprsB }
     [] g[1] = "nest" ->
